@@ -14,7 +14,7 @@ SHARD_TIMEOUT = {'quick': 300, 'thorough': 1500}
 CFG = {
     'monitors': 'commit'.split(','),
     'deciding_counters': ['commit.observed'],
-    'n': {'quick': 150, 'thorough': 1000},
+    'n': {'quick': 500, 'thorough': 1000},
     'ops': {'quick': 30, 'thorough': 60},
     'stop_on_taint': False,   # a failed call that changed the session does not end the history: the later commit is judged
 }
@@ -22,7 +22,7 @@ CFG = {
 
 SMALL = {
     'templates': ['m2m', 'o2m_opt', 'self', 'composite', 'mixed_cascade'],
-    'budget': {'quick': 9000, 'thorough': 160000},
+    'budget': {'quick': 24000, 'thorough': 160000},
     'monitors': CFG['monitors'],
 }
 
